@@ -21,6 +21,7 @@ inductive IdxOp
   | inverse       -- np.dot(self.inverse_affine, ...)   (inverse_affine = np.linalg.inv(self._affine))
   | apply         -- np.dot(self._affine, [indices; 1])[:3]
   | round         -- np.around(...) when round_output
+  | cast          -- astype(...): choice of the output dtype (rounded) / cast back to a float input dtype (unrounded)
   | check         -- the bounds check when check_bounds
   deriving DecidableEq, Repr
 
